@@ -419,6 +419,7 @@ func (p *Prog) applySymbolAliases(verifDir string) {
 		score float64
 	}
 	taken := map[string]bool{}
+	matched := map[string]bool{}
 	for _, g := range gone {
 		gt := norm(g.Touches, goneNames, false)
 		var cs []cand
@@ -436,10 +437,49 @@ func (p *Prog) applySymbolAliases(verifDir string) {
 			continue // not unique
 		}
 		taken[cs[0].name] = true
+		matched[g.Name] = true
 		for _, fn := range p.Funcs {
 			if fn.Parent() == nil && aliasTypesIn(rawFuncName(fn)) == cs[0].name {
 				funcAlias[fn] = g.Name
 				aliasNotes = append(aliasNotes, fmt.Sprintf("function %s is taken for the recorded %s (same receiver and signature, similarity %.2f)", cs[0].name, g.Name, cs[0].score))
+			}
+		}
+	}
+	// second pass: a method turned into a function (or the reverse), or a helper whose parameter list changed: same
+	// results, and it touches nearly the same symbols; the receiver and the parameters are not compared
+	results := func(sig string) string {
+		if i := strings.LastIndex(sig, ")("); i >= 0 {
+			return sig[i+1:]
+		}
+		return sig
+	}
+	for _, g := range gone {
+		if matched[g.Name] {
+			continue
+		}
+		gt := norm(g.Touches, goneNames, false)
+		if len(gt) < 2 {
+			continue // too little to go by
+		}
+		var cs []cand
+		for _, f := range fresh {
+			if taken[f.Name] || results(normSig(f.Sig)) != results(normSig(g.Sig)) {
+				continue
+			}
+			cs = append(cs, cand{f.Name, sim(normTypes(gt), normTypes(norm(f.Touches, freshNames, true)))})
+		}
+		sort.Slice(cs, func(i, j int) bool { return cs[i].score > cs[j].score })
+		if len(cs) == 0 || cs[0].score < 0.75 {
+			continue
+		}
+		if len(cs) > 1 && cs[1].score > cs[0].score-0.2 {
+			continue
+		}
+		taken[cs[0].name] = true
+		for _, fn := range p.Funcs {
+			if fn.Parent() == nil && aliasTypesIn(rawFuncName(fn)) == cs[0].name {
+				funcAlias[fn] = g.Name
+				aliasNotes = append(aliasNotes, fmt.Sprintf("function %s is taken for the recorded %s (receiver or parameter list changed; same results, similarity %.2f)", cs[0].name, g.Name, cs[0].score))
 			}
 		}
 	}
